@@ -50,22 +50,22 @@ impl Rec {
     }
     pub fn md5(&mut self, data: &[u8]) -> [u8; 16] {
         let d = md5::compute(data).0;
-        self.put(format!("m:{}:{}", hx(data), hx(&d)));
+        if self.on { self.put(format!("m:{}:{}", hx(data), hx(&d))); }
         d
     }
     pub fn sha256(&mut self, data: &[u8]) -> Vec<u8> {
         let d = sha2::Sha256::digest(data).to_vec();
-        self.put(format!("s2:{}:{}", hx(data), hx(&d)));
+        if self.on { self.put(format!("s2:{}:{}", hx(data), hx(&d))); }
         d
     }
     pub fn sha384(&mut self, data: &[u8]) -> Vec<u8> {
         let d = sha2::Sha384::digest(data).to_vec();
-        self.put(format!("s3:{}:{}", hx(data), hx(&d)));
+        if self.on { self.put(format!("s3:{}:{}", hx(data), hx(&d))); }
         d
     }
     pub fn sha512(&mut self, data: &[u8]) -> Vec<u8> {
         let d = sha2::Sha512::digest(data).to_vec();
-        self.put(format!("s5:{}:{}", hx(data), hx(&d)));
+        if self.on { self.put(format!("s5:{}:{}", hx(data), hx(&d))); }
         d
     }
     /// one AES block, forward direction; key of 16 or 32 bytes
@@ -78,7 +78,7 @@ impl Rec {
         }
         let mut o = [0u8; 16];
         o.copy_from_slice(&b);
-        self.put(format!("a:{}:{}:{}", hx(key), hx(block), hx(&o)));
+        if self.on { self.put(format!("a:{}:{}:{}", hx(key), hx(block), hx(&o))); }
         o
     }
     /// one AES block, inverse direction (recorded as the same relation `E_key(out) = block`)
@@ -91,7 +91,7 @@ impl Rec {
         }
         let mut o = [0u8; 16];
         o.copy_from_slice(&b);
-        self.put(format!("a:{}:{}:{}", hx(key), hx(&o), hx(block)));
+        if self.on { self.put(format!("a:{}:{}:{}", hx(key), hx(&o), hx(block))); }
         o
     }
     /// SASLprep outcome for a password (table entry only; see `saslprep_known`)
